@@ -11,3 +11,16 @@ package metadata
 //@ func iface Definition.SetID
 //@   assigns ghost(mdid, self)
 //@   ensures mdid(self) == id
+
+//@ # Field-level contracts of the metadata ID methods; with the static obligation ident-impls (every
+//@ # Definition gets ID/SetID by promotion from a MetadataID embedded by value) they justify the
+//@ # interface contracts over mdid above.
+//@ func (MetadataID).ID
+//@   props C17 C13 C14
+//@   assigns nothing
+//@   ensures result == i
+//@ func (*MetadataID).SetID
+//@   props C17 C13 C14
+//@   requires i != nil
+//@   assigns deref(i)
+//@   ensures deref(i) == id
